@@ -171,16 +171,17 @@ fn main() {
           let expect_p2 = k.min(full.hits.len().saturating_sub(k));
           let n_tied = full.hits.iter().filter(|(id, _)| tied(id)).count();
           if p2.len() != expect_p2 && n_tied <= 1 {
-            return Err(scoring::TopkDiff { kind: "page-2-length".into(), detail: json!({"got": p2.len(), "expected": expect_p2}), only_omits_better: p2.len() < expect_p2 });
+            return Err(scoring::TopkDiff { kind: "page-2-length".into(), detail: json!({"got": p2.len(), "expected": expect_p2}), only_omits_better: p2.len() < expect_p2, only_omits: p2.len() < expect_p2 });
           }
           scoring::check_topk(&full2, &concat, concat.len(), REL, &built.loc, strict)
         };
         let report = |l: &mut Local, d: scoring::TopkDiff, what: &str, req: &Value, got_hits: &[(String, f32)], wand_ok: Option<bool>| {
-          let sig = if custom && d.only_omits_better {
+          let sig = if exec_class == "bmw" && d.only_omits && wand_ok == Some(true) {
+            // qualifying documents are missing and the same request under `wand` is admissible:
+            // specific to the block-max bounds
+            "bmw-block-local-bounds-skip-or-end-the-scan:omits-qualifying-documents".to_string()
+          } else if custom && d.only_omits_better {
             "pruning-ignores-score-adjustment:omits-better-documents".to_string()
-          } else if !custom && exec_class == "bmw" && d.only_omits_better && wand_ok == Some(true) {
-            // plain tree, the same request under `wand` is admissible: specific to block-max bounds
-            "bmw-block-local-bounds-end-the-scan-early:omits-better-documents".to_string()
           } else {
             format!("{}:{exec_class}:{}:{}", if custom { "score-adjusting-tree" } else { "plain-bm25-tree" }, what, d.kind)
           };
@@ -204,7 +205,7 @@ fn main() {
         let mut page1_ok = true;
         if let Err(d) = scoring::check_topk(&full.hits, &got.hits, k, REL, &built.loc, strict) {
           page1_ok = false;
-          let wand_ok = if exec_class == "bmw" && !custom && d.only_omits_better {
+          let wand_ok = if exec_class == "bmw" && d.only_omits {
             run(&built.reader, &as_wand(&req)).ok().map(|w| scoring::check_topk(&full.hits, &w.hits, k, REL, &built.loc, strict).is_ok())
           } else {
             None
@@ -225,7 +226,7 @@ fn main() {
                 l.eval();
                 l.count("page2_checks", 1);
                 if let Err(d) = page2_check(&got.hits, &p2.hits) {
-                  let wand_ok = if exec_class == "bmw" && !custom && d.only_omits_better {
+                  let wand_ok = if exec_class == "bmw" && d.only_omits {
                     run(&built.reader, &as_wand(&req2)).ok().map(|w| page2_check(&got.hits, &w.hits).is_ok())
                   } else {
                     None
